@@ -146,6 +146,10 @@ pub fn disarm_attempt_cap() {
     ATTEMPT_CAP.store(0, Ordering::SeqCst);
 }
 
+/// library mprotect calls whose page range covers this address fail (0 = off): "the OS refuses to make THIS
+/// page writable", whatever the order and granularity in which the library asks
+pub static FAIL_MPROTECT_PAGE: AtomicUsize = AtomicUsize::new(0);
+
 pub fn arm_fail_range(kind: usize, from: i64, to: i64) {
     PLAN_IDX[kind].store(0, Ordering::SeqCst);
     FAIL_P[kind].store(0, Ordering::SeqCst);
@@ -167,6 +171,7 @@ pub fn disarm_all() {
         PLAN_IDX[k].store(0, Ordering::SeqCst);
         DELAY_NS[k].store(0, Ordering::SeqCst);
     }
+    FAIL_MPROTECT_PAGE.store(0, Ordering::SeqCst);
 }
 pub fn plan_calls(kind: usize) -> i64 {
     PLAN_IDX[kind].load(Ordering::SeqCst)
@@ -466,6 +471,16 @@ pub unsafe extern "C" fn munmap(addr: *mut libc::c_void, len: libc::size_t) -> l
     if lib {
         N_MUNMAP_LIB.fetch_add(1, Ordering::Relaxed);
         maybe_delay(K_MUNMAP);
+        if should_fail(K_MUNMAP) {
+            // the kernel refuses (as it does with ENOMEM at the mapping-count limit): nothing is unmapped
+            N_INJECTED.fetch_add(1, Ordering::Relaxed);
+            e.injected = 1;
+            e.res = -1;
+            e.err = libc::ENOMEM;
+            push(e);
+            set_errno(libc::ENOMEM);
+            return -1;
+        }
     }
     let hit = ledger_remove(addr as usize, len);
     match hit {
@@ -509,7 +524,9 @@ pub unsafe extern "C" fn mprotect(addr: *mut libc::c_void, len: libc::size_t, pr
     if lib {
         N_MPROTECT_LIB.fetch_add(1, Ordering::Relaxed);
         maybe_delay(K_MPROTECT);
-        if should_fail(K_MPROTECT) {
+        let fp = FAIL_MPROTECT_PAGE.load(Ordering::SeqCst);
+        let covers = fp != 0 && (addr as usize & !4095) <= fp && fp < ((addr as usize + len + 4095) & !4095);
+        if should_fail(K_MPROTECT) || covers {
             N_INJECTED.fetch_add(1, Ordering::Relaxed);
             e.injected = 1;
             e.res = -1;
